@@ -1519,9 +1519,10 @@ class P(Prop):
             return None
         if "err" in out:
             # impl() catches everything the judged call raises; what escapes it comes from building the track
-            # (addObs / createAnalyticalFeature) or listing its features afterwards: the harness's own plumbing, not
-            # the property - a harness error (the engine reports an oracle crash, exit 2), never a violation
-            raise RuntimeError("harness could not run the case: %s" % out)
+            # (addObs / createAnalyticalFeature / removeAnalyticalFeature) or listing its features afterwards: the
+            # harness's own plumbing, not the property. Never a violation: the case is not judged (the correspondence
+            # reports it - the model has an output, the implementation side has none)
+            return None
         if has_call_of_constant(case["tree"]):
             return None                      # a function applied to a number: outside the grammar (domain restriction)
         vals, divzero, undef = oracle(case, quirks)
